@@ -167,6 +167,9 @@ func Job(tp *core.Tape, name string, o Opts) *Map {
 			j.Add("body_size_limit", E("10MB", "10MB", "1MB"))
 		}
 	}
+	if tp.Bool("own_proxy_url", 1, 6) {
+		j.Add("proxy_url", E("http://corp-proxy."+name+".example:3128", "http://corp-proxy."+name+".example:3128", "http://other-proxy."+name+".example:8080"))
+	}
 	if tp.Bool("follow_redirects", 1, 5) {
 		j.Add("follow_redirects", B(false))
 	}
